@@ -266,6 +266,8 @@ func (b *Built) build(s *Spec) (res error) {
 		return &RMulti{S(0), xs}
 	case "umulticause":
 		return &UMultiCause{S(0), xs}
+	case "umulticauser":
+		return &UMultiCauser{S(0), xs}
 	}
 	panic("unknown kind " + s.K)
 }
